@@ -146,9 +146,9 @@ def collect_patterns(mistune):
     pats = []
     seen = set()
 
-    def add(name, pattern, flags):
+    def add(name, pattern, flags, force=False):
         key = (pattern, flags)
-        if key in seen:
+        if key in seen and not force:
             return
         seen.add(key)
         pats.append((name, pattern, flags))
@@ -169,9 +169,9 @@ def collect_patterns(mistune):
     from mistune.block_parser import BlockParser
     from mistune.inline_parser import InlineParser
     for k, v in BlockParser.SPECIFICATION.items():
-        add("block__%s" % k, v, re.M)
-    add("block__BLANK_LINE", BlockParser.BLANK_LINE.pattern, re.M)
+        add("block__%s" % k, v, re.M, True)
+    add("block__BLANK_LINE", BlockParser.BLANK_LINE.pattern, re.M, True)
     for k, v in InlineParser.SPECIFICATION.items():
-        add("inline__%s" % k, v, 0)
-    add("inline__HARD_LINEBREAK", InlineParser.HARD_LINEBREAK, 0)
+        add("inline__%s" % k, v, 0, True)
+    add("inline__HARD_LINEBREAK", InlineParser.HARD_LINEBREAK, 0, True)
     return pats
